@@ -13,6 +13,8 @@ def kindOf : PyVal → Nat
   | .seq _ .list _ => 9
   | .seq _ .tuple _ => 10
   | .seq _ .code _ => 100
+  | .seq _ .partialFn _ => 100
+  | .seq _ .boundMethod _ => 100
   | .set _ false _ => 11
   | .set _ true _ => 12
   | .dict _ _ => 13
@@ -133,7 +135,9 @@ theorem enc_word {v : PyVal} {p : Pre} (hg : inG0 v = true) (h : pre v = .ok p) 
     simp only [inG0, Bool.and_eq_true, bne_iff_ne, ne_eq] at hg
     have hcons := head_cons_of_head? hseq
     cases k with
-    | code => exact absurd rfl hg.1
+    | code => exact absurd hg.1 (by decide)
+    | partialFn => exact absurd hg.1 (by decide)
+    | boundMethod => exact absurd hg.1 (by decide)
     | list =>
       unfold WordShape valWord
       simp only [kindOf]
@@ -248,7 +252,9 @@ theorem kindOf_range {v : PyVal} (hg : inG0 v = true) : kindOf v ≤ 17 ∧ (∀
   | seq i k xs =>
     simp only [inG0, Bool.and_eq_true, bne_iff_ne, ne_eq] at hg
     cases k with
-    | code => exact absurd rfl hg.1
+    | code => exact absurd hg.1 (by decide)
+    | partialFn => exact absurd hg.1 (by decide)
+    | boundMethod => exact absurd hg.1 (by decide)
     | list =>
       refine ⟨by simp [kindOf], ?_, by simp [valWord, kindOf]⟩
       intro c hc
